@@ -407,6 +407,10 @@ def result_leaves(m, n_id, mp_local):
                 s, g0 = lets[lid]
                 if s['pat'].get('k') == 'Binding':
                     leaves(s['init'], gated or g0, depth + 1)
+                    # `let mut res = NAN; if gate { res = .. }`: the later assignments are
+                    # results too (each under its own control dependence)
+                    for rhs, g1 in assigns.get(lid, []):
+                        leaves(rhs, gated or g1, depth + 1)
                     return
                 if s['pat'].get('k') == 'Tuple':
                     pos = [i for i, c in enumerate(s['pat']['ch'])
@@ -525,14 +529,21 @@ def kernel_signature(m):
             d = adds[0].poly.show()
             canon[nm] = 'count' if d == '1' else 'Σ[%s]' % d
 
+    # captured scalars computed before the driver call (`alpha = 2 / window`, `oma = 1 - alpha`)
+    # are named by their definition over the parameters, not by their source name
+    defs = {}
+    for nm_, v_ in pre_env(m).items():
+        if v_ is not None and nm_ not in names and v_.show() != nm_:
+            defs[nm_] = 'DEF[%s]' % v_.show()
+
     def ren(p):
-        return p.subst(lambda x: ('sym', canon.get(x[1], x[1])) if x[0] == 'sym' else x)
+        return p.subst(lambda x: ('sym', canon.get(x[1], defs.get(x[1], x[1]))) if x[0] == 'sym' else x)
     # pass 2: state-dependent deltas (linear weights, exponential), named after their add delta
     for nm, (adds, rms) in raw.items():
         if nm not in canon and len(adds) == 1 and adds[0].op == 'AddAssign':
             tmp = dict(canon)
             tmp[nm] = 'SELF'
-            d = adds[0].poly.subst(lambda x: ('sym', tmp.get(x[1], x[1])) if x[0] == 'sym' else x)
+            d = adds[0].poly.subst(lambda x: ('sym', tmp.get(x[1], defs.get(x[1], x[1]))) if x[0] == 'sym' else x)
             canon[nm] = 'Σ[%s]' % d.show()
     for nm in raw:
         canon.setdefault(nm, nm)
